@@ -14,7 +14,7 @@ use lexical_util::iterator::{AsBytes, DigitsIter};
 use lexical_util::step::u64_step;
 
 use crate::float::{ExtendedFloat80, RawFloat};
-use crate::mask::lower_n_halfway;
+use crate::mask::{lower_n_halfway, lower_n_mask};
 use crate::number::Number;
 use crate::shared;
 
@@ -35,6 +35,11 @@ pub fn binary<F: RawFloat, const FORMAT: u128>(num: &Number, lossy: bool) -> Ext
         exp: 0,
     };
 
+    // A literal 0 is 0 no matter the exponent (and cannot be normalized).
+    if num.mantissa == 0 {
+        return fp_zero;
+    }
+
     // Normalize our mantissa for simpler results.
     let ctlz = num.mantissa.leading_zeros();
     let mantissa = num.mantissa << ctlz;
@@ -51,11 +56,17 @@ pub fn binary<F: RawFloat, const FORMAT: u128>(num: &Number, lossy: bool) -> Ext
     // disambiguate the float. If it's even, and exactly halfway, this
     // step fails.
     let power2 = shared::calculate_power2::<F, FORMAT>(num.exponent, ctlz);
-    if -power2 + 1 >= 64 {
-        // Have more than 63 bits below the minimum exponent, must be 0.
-        // Since we can't have partial digit rounding, this is true always
-        // if the power-of-two >= 64.
+    if -power2 + 1 > 64 {
+        // Have more than 64 bits below the minimum exponent, must be 0.
+        // With exactly 64 bits, the leading bit is the halfway bit of the
+        // smallest denormal float, so we may still round up.
         return fp_zero;
+    } else if power2 >= F::INFINITE_POWER {
+        // The mantissa is normalized, so this is infinite even before rounding.
+        return ExtendedFloat80 {
+            mant: 0,
+            exp: F::INFINITE_POWER,
+        };
     }
 
     // Get our shift to shift the digits to the hidden bit, or correct spot.
@@ -64,10 +75,9 @@ pub fn binary<F: RawFloat, const FORMAT: u128>(num: &Number, lossy: bool) -> Ext
     let shift = shared::calculate_shift::<F>(power2);
 
     // Determine if we can see if we're at a halfway point.
-    let last_bit = 1u64 << shift;
-    let truncated = last_bit - 1;
+    let truncated = lower_n_mask(shift as u64);
     let halfway = lower_n_halfway(shift as u64);
-    let is_even = mantissa & last_bit == 0;
+    let is_even = shift == 64 || mantissa & (1u64 << shift) == 0;
     let is_halfway = mantissa & truncated == halfway;
     if !lossy && is_even && is_halfway && num.many_digits {
         // Exactly halfway and even, cannot safely determine our representation.
